@@ -199,12 +199,10 @@ func newLocalImporter(globalNames []string, sourceDir string) importer.Importer 
 }
 
 func resolveModule(m *object.Module, attr []string) (*object.Module, bool) {
-	if len(attr) == 0 {
-		return m, true
-	}
-	var result *object.Module
+	// Walk the path module by module: every element is looked up in the module found so far.
+	result := m
 	for _, name := range attr {
-		if obj, ok := m.GetAttr(name); ok {
+		if obj, ok := result.GetAttr(name); ok {
 			if modObj, ok := obj.(*object.Module); ok {
 				result = modObj
 				continue
